@@ -55,6 +55,10 @@ def job(j):
     plans = []
     for t in rnd.sample(dt, min(4, len(dt))):
         plans.append(("targets", [t], {}))
+    # rules that depend on parameters only, requested alone (they return scalars)
+    po = [n for n in cols if n in gs.env(date)[1] and all(a.endswith("_params") for a in gs.arg_names(gs.env(date)[1][n]))]
+    for t in po[:3]:
+        plans.append(("targets", [t], {}))
     for size in [1, 2, 3, 7, 25][:nsets]:
         for _ in range(2):
             plans.append(("targets", rnd.sample(cols, min(size, len(cols))), {}))
